@@ -299,7 +299,8 @@ impl Components {
                 .data
                 .iter()
                 .filter_map(|c| match c {
-                    Energy::Used(e) if e.id == id => Some(e.service),
+                    // Los consumos auxiliares solo se imputan a servicios EPB
+                    Energy::Used(e) if e.id == id && e.service.is_epb() => Some(e.service),
                     _ => None,
                 })
                 .collect::<HashSet<_>>();
